@@ -18,6 +18,9 @@ fn main() {
         eprintln!("usage: tcmc <property|selftest|replay> [--tier quick|thorough] [--replay file] [--budget secs]");
         std::process::exit(2);
     }
+    if args[0] == "worker-c06" {
+        std::process::exit(props::c06::worker(&args[1..]));
+    }
     let cmd = args[0].to_uppercase();
     let mut tier = match std::env::var("VERIF_TIER").ok().as_deref() {
         Some("thorough") => Tier::Thorough,
@@ -76,7 +79,9 @@ fn dispatch(cmd: &str, opts: &Opts) -> i32 {
         "C01" => props::c01::run(opts),
         "C02" => props::c02::run(opts),
         "C03" => props::c03::run(opts),
+        "C04" => props::c04::run(opts),
         "C05" => props::c05::run(opts),
+        "C06" => props::c06::run(opts),
         "C07" => props::c07::run(opts),
         "C15" => props::c15::run(opts),
         "C16" => props::c16::run(opts),
